@@ -37,7 +37,8 @@ P(l) == S(l, FALSE, FALSE)
 ReuseSmall == {Ext1, P(OneLocal), P(TwoLocalPorts), P(LocalRemote)}
 ReuseMore == ReuseSmall \cup {ExtLR, P(TwoRemotes), P(Interleaved), P(RemoteTwoPorts), S(TwoNodesOneEntry, FALSE, TRUE), P(NoTargets)}
 
-QuickScenarios == One(Provisioned(QuickLists) \cup External({OneLocal, LocalRemote, NoTargets}))
+QuickScenarios == One({P(l) : l \in QuickLists} \cup {S(l, FALSE, TRUE) : l \in {TwoNodesOneEntry, LocalRemote}}
+                      \cup External({OneLocal, LocalRemote, NoTargets}))
                   \cup Two(ReuseSmall, ReuseSmall) \cup Two({Ext1, P(TwoRemotes)}, {P(TwoRemotes), P(RemoteTwoPorts)})
                   \cup Three({Ext1}, {P(OneLocal), Ext1}, {P(LocalRemote)})
 ThoroughScenarios == One(Provisioned(ThoroughLists) \cup External(ThoroughLists))
